@@ -1,6 +1,6 @@
 """C05 -- arithmetic and hashing kernel is mathematically exact on every configuration (exploration)."""
 import collections, json, random, os, concurrent.futures as cf
-import vlib
+import vlib, engine
 from vlib import Infra, log
 LEVEL = "exploration"
 MODULE = "C05_Kernel.tla"
@@ -543,6 +543,10 @@ def run(chk):
     for v in variants:
         replay_robust(chk, stours, v, "SHA-256 write-sequence tour")
         replay_robust(chk, gen, v, "scalar / group law / ecmult / hash boundary records")
+        # the actions of spec/api/Aliasing.tla once more with the output buffer aliased to an input buffer (same specified result)
+        ae = engine.alias_events()
+        sub = [dict(r, **{"in": dict(r.get("in", {}), alias=m)}) for r in gen if r["e"] in ae for m in range(1, ae[r["e"]] + 1)]
+        if sub: replay_robust(chk, sub, v, "hash boundary records [output aliased to an input]")
     # ---- part 1: field transition tours (one machine at a time: the thorough ones are large) ----
     fstat = []; seen_edges = set()
     for i, c in enumerate(fcfgs):
